@@ -262,6 +262,24 @@ theorem cn_byteArr (len : Nat) (code : Option Code) (mn mx : Nat) : CN (.byteArr
     simp only [enc, hlen, ne_eq, not_true_eq_false, if_false, hb, Bool.not_true, Bool.and_false,
       Bool.false_eq_true, hcode, take_add_drop]
 
+theorem cn_custom (code : Option Code) (fixed : Option Nat) : CN (.custom code fixed) := by
+  intro o o' _ _ _ b v n h pre
+  simp only [dec, Res.bind_eq_ok] at h
+  obtain ⟨cw, hc, h⟩ := h
+  obtain ⟨_, hcode⟩ := readCode_ok hc
+  split at h
+  · contradiction
+  · rename_i x rest hd
+    split at h
+    · contradiction
+    · split at h
+      · rename_i hok
+        cases h
+        have : b.take (cw + (1 + x.toNat)) = b.take cw ++ (x :: rest.take x.toNat) := by
+          rw [← take_add_drop, hd, Nat.add_comm 1, List.take_succ_cons]
+        simp only [enc, hok, if_true, hcode, this]
+      · contradiction
+
 theorem cn_u256 : CN .u256 := by
   intro o o' _ _ _ b v n h pre
   simp only [dec] at h
@@ -326,6 +344,7 @@ theorem cn_ty : ∀ (t : Ty), t.wf = true → CN t
     exact cn_byteArr n code mn mx
   | .u256, _ => cn_u256
   | .time, _ => cn_time
+  | .custom code fixed, _ => cn_custom code fixed
   | .slice lp r e, hwf => by
     intro o o' hv hs hv' b v n h pre
     simp only [Ty.wf, Bool.and_eq_true] at hwf
@@ -523,6 +542,7 @@ theorem sm_ty : ∀ (t : Ty), SM t
   | .bytes _ _ _ => by intro val b r h; simpa only [dec] using h
   | .byteArr _ _ _ _ => by intro val b r h; simpa only [dec] using h
   | .u256 => by intro val b r h; simpa only [dec] using h
+  | .custom _ _ => by intro val b r h; simpa only [dec] using h
   | .time => by
     intro val b r h
     simp only [dec] at h ⊢
